@@ -187,7 +187,11 @@ void X_vp_check_no_leak(void) { VP_CHECK(X_vp_live_blocks() == 0, "alloc.no_leak
 /* Address model.  Blocks handed out by the harness allocator / vp_buf have a modelled base address (symbolic residue for
  * the allocator); every other object gets (object id << 40) + 2^36 + signed offset, so that pointers before the start of
  * an object (row_end of a flipped view) still compare and subtract correctly. */
+#ifdef __CPROVER__
 uint8_t* vp_func_from_id(uint64_t x); uint64_t vp_func_to_id(uint8_t* p);   /* generated per translated file (tools/ll2c.py) */
+#else
+__attribute__((weak)) uint8_t* vp_func_from_id(uint64_t x); __attribute__((weak)) uint64_t vp_func_to_id(uint8_t* p);   /* absent in the native C++ build */
+#endif
 uint64_t vp_ptrtoint(uint8_t* p) {
 #ifdef __CPROVER__
   if (p == 0) return 0;
@@ -196,6 +200,7 @@ uint64_t vp_ptrtoint(uint8_t* p) {
     return led_base[i] + (uint64_t)(int64_t)__CPROVER_POINTER_OFFSET(p);
   return ((uint64_t)__CPROVER_POINTER_OBJECT(p) << 40) + (1ull << 36) + (uint64_t)(int64_t)__CPROVER_POINTER_OFFSET(p);
 #else
+  { uint64_t id = (p && vp_func_to_id) ? vp_func_to_id(p) : 0; if (id) return id; }   /* generated C uses the fixed function ids in both builds */
   return (uint64_t)p;
 #endif
 }
@@ -206,6 +211,8 @@ uint8_t* vp_inttoptr(uint64_t x) {
   for (int i = 0; i < VP_MAXB; i++) if (i < led_cnt && x + 4096 >= led_base[i] && x - led_base[i] + 4096 <= led_n[i] + 8192)
     return led_p[i] + (int64_t)(x - led_base[i]);
   VP_CHECK(0, "env.inttoptr_unknown_object");
+#else
+  { uint8_t* f = (x && vp_func_from_id) ? vp_func_from_id(x) : 0; if (f) return f; }
 #endif
   return (uint8_t*)x;
 }
